@@ -188,6 +188,9 @@ type LoaderStep struct {
 	// Replace: the document is written next to the file and renamed over it (what editors
 	// and config management do) instead of rewriting the file in place
 	Replace bool `json:"replace,omitempty"`
+	// NoTake: nobody consumes what this step publishes until a later step does (a slow
+	// consumer of the loader's channel)
+	NoTake bool `json:"no_take,omitempty"`
 	// NoEvent: the write is not followed by a change event (e.g. lost by the notifier)
 	NoEvent bool `json:"no_event,omitempty"`
 }
